@@ -277,6 +277,47 @@ func names(c []int) []string {
 // and stream 3 carries two more seconds of traffic (so that count- and time-based windows turn over).
 // The retained size must not exceed (by more than 256 bytes) that of an instance that only ever had
 // stream 3 with the same traffic at the same times.
+// manyStreams: 120 remote streams on one instance receive in-order packets in turn (1 ms apart) for five
+// equal phases. What a feedback generator keeps per stream must not depend on how many streams share its
+// report budget. Only kinds that see nothing but incoming RTP are measured this way: their per-stream state is
+// of fixed size or bounded by time, so it is saturated well within the first phase.
+const manyN = 120
+
+func manyStreams(j job) ([]int64, *vsched.Result) {
+	var sizes []int64
+	res := vsched.Run(vsched.Options{Strategy: vsched.BackgroundFirst{}, MaxSteps: 2_000_000_000}, func() {
+		i, x, err := hk.KindByName(j.Kind).New(0)
+		if err != nil {
+			vsched.Failf("setup: %v", err)
+			return
+		}
+		s := hk.NewSession(i, x)
+		s.BindRTCPWriter()
+		s.BindRTCPReader()
+		for k := 1; k <= manyN; k++ {
+			s.BindRemote(k, true)
+		}
+		seq := make([]uint16, manyN+1)
+		for phase := 0; phase < 5; phase++ {
+			for it := 0; it < j.P; it++ {
+				k := 1 + it%manyN
+				seq[k]++
+				rm := s.Remotes[k]
+				h, pl := hk.Shape(0, rm.Info.SSRC, 65000+seq[k], uint32(seq[k])*90)
+				t := uint16(phase*j.P + it)
+				_ = h.SetExtension(hk.TwccExtID, []byte{byte(t >> 8), byte(t)})
+				_, _, _ = rm.ReadRTP(hk.MarshalRTP(h, pl))
+				vsched.Advance(time.Millisecond)
+				s.T.RTP, s.T.RTCP, s.T.AllRTCP = nil, nil, nil
+			}
+			vsched.Quiesce()
+			sizes = append(sizes, hk.DeepSize(s.I))
+		}
+		_ = i.Close()
+	})
+	return sizes, res
+}
+
 func unbindCheck(j job) (string, int64, int64) {
 	cp := kindCaps[j.Kind]
 	msg := ""
@@ -415,6 +456,16 @@ func run(tier string, i int, deadline time.Time) *hk.JobResult {
 			r.Samples = append(r.Samples, map[string]any{"kind": j.Kind, "cycle": names(c), "sizes_after_each_phase": sizes})
 		}
 	}
+	if cp := kindCaps[j.Kind]; j.Chunk == 1 && cp.remote && !cp.local && j.Kind != "jitterbuffer" {
+		sizes, res := manyStreams(j)
+		r.Executions++
+		r.Transitions += int64(5 * j.P)
+		if len(res.Panics) == 0 && !res.StepLimit && !res.Deadlock && len(res.Failures) == 0 && leak(sizes, j.P) {
+			r.Violations = append(r.Violations, hk.Violation{Key: "C12:" + j.Kind + ":grows-with-traffic:many-streams",
+				Message: fmt.Sprintf("%s: %d remote streams receive in-order packets in turn; retained size at the end of five equal phases of %d packets: %v bytes - it grows by at least a byte per packet in every phase", j.Kind, manyN, j.P, sizes),
+				Replay:  replay{Job: j, Kind: "many-streams"}})
+		}
+	}
 	if j.Chunk == 0 {
 		msg, after, never := unbindCheck(j)
 		r.Executions++
@@ -451,6 +502,12 @@ func init() {
 				msg, after, never := unbindCheck(rp.Job)
 				if msg == "" && after > never+256 {
 					return fmt.Sprintf("%d bytes retained after Unbind, %d for an instance that never had a stream", after, never)
+				}
+				return ""
+			}
+			if rp.Kind == "many-streams" {
+				if sizes, _ := manyStreams(rp.Job); leak(sizes, rp.Job.P) {
+					return fmt.Sprintf("sizes %v", sizes)
 				}
 				return ""
 			}
